@@ -68,7 +68,10 @@ class KexCurve25519:
 
     def _parse_kexecdh_init(self, m):
         peer_key_bytes = m.get_string()
-        peer_key = X25519PublicKey.from_public_bytes(peer_key_bytes)
+        try:
+            peer_key = X25519PublicKey.from_public_bytes(peer_key_bytes)
+        except ValueError:
+            raise SSHException("Invalid X25519 public key from peer")
         K = self._perform_exchange(peer_key)
         K = int(binascii.hexlify(K), 16)
         # compute exchange hash
@@ -106,7 +109,10 @@ class KexCurve25519:
         peer_key_bytes = m.get_string()
         sig = m.get_binary()
 
-        peer_key = X25519PublicKey.from_public_bytes(peer_key_bytes)
+        try:
+            peer_key = X25519PublicKey.from_public_bytes(peer_key_bytes)
+        except ValueError:
+            raise SSHException("Invalid X25519 public key from peer")
 
         K = self._perform_exchange(peer_key)
         K = int(binascii.hexlify(K), 16)
